@@ -40,3 +40,37 @@ pub fn format_ns_hex(v: u64) -> (r: String)
 {
     format!("ns_{:x}", v)
 }
+
+// `s.trim_matches(c)` for a char pattern: the longest middle part that neither starts nor ends with c
+pub open spec fn is_trim_of(r: Seq<char>, s: Seq<char>, c: char) -> bool {
+    exists|a: int, b: int| 0 <= a <= b <= s.len() && #[trigger] s.subrange(a, b) == r
+        && (forall|i: int| 0 <= i < a ==> s[i] == c) && (forall|i: int| b <= i < s.len() ==> s[i] == c)
+        && (a < b ==> s[a] != c && s[b - 1] != c)
+}
+pub trait VxStrTrim { fn vx_trim_matches_char<'a>(&'a self, c: char) -> (r: &'a str); }
+impl VxStrTrim for str {
+    #[verifier::external_body]
+    fn vx_trim_matches_char<'a>(&'a self, c: char) -> (r: &'a str)
+        ensures is_trim_of(r@, self@, c)
+    { self.trim_matches(c) }
+}
+impl VxStrTrim for String {
+    #[verifier::external_body]
+    fn vx_trim_matches_char<'a>(&'a self, c: char) -> (r: &'a str)
+        ensures is_trim_of(r@, self@, c)
+    { self.trim_matches(c) }
+}
+pub broadcast proof fn lemma_trim_empty_iff_all(r: Seq<char>, s: Seq<char>, c: char)
+    requires #[trigger] is_trim_of(r, s, c)
+    ensures (r.len() == 0) == all_chars(s, c)
+{
+    let (a, b) = choose|a: int, b: int| 0 <= a <= b <= s.len() && #[trigger] s.subrange(a, b) == r
+        && (forall|i: int| 0 <= i < a ==> s[i] == c) && (forall|i: int| b <= i < s.len() ==> s[i] == c)
+        && (a < b ==> s[a] != c && s[b - 1] != c);
+    assert(r.len() == b - a);
+    if r.len() == 0 {
+        assert forall|i: int| 0 <= i < s.len() implies s[i] == c by { if i < a {} else {} }
+    } else {
+        assert(s[a] != c);
+    }
+}
